@@ -214,6 +214,8 @@ def g_gammastd_grp(rng, cls, dtype):
         groups[rng.choice(n, k, replace=False)] = np.arange(k)
         groups = (np.sort(groups) if rng.random() < 0.5 else groups).astype(np.int16)
     x = _gamma(rng, n, dtype)
+    if cls != "min" and k > 1 and rng.random() < 0.3:
+        x[groups == int(rng.integers(0, k))] = -9999  # one whole group missing (its slot in every per-group bookkeeping stays empty)
     cal = np.zeros((k, 2), dtype=np.int16)
     for g in range(k):
         m = int((groups == g).sum())
